@@ -1,6 +1,7 @@
 (* C06 — locking is observationally transparent: memoised reads never go stale.  Property theorems only.
    Model: Model/C06_Cache.v (the @cache decorator, its key, erase_cache, the lock graph, the writes permitted under lock).
-   [repo] = /repo as it is today; the refutations are histories /repo accepts (replayed by harness/c06.py). *)
+   [repo] = /repo as it is today (the fix: commits of C06 and of the lock graph, C05, applied); [unrepaired] = the library before
+   them; the refutations are histories the respective library accepts (replayed by harness/c06.py `witnesses()`). *)
 From Coq Require Import ZArith List String Bool.
 Import ListNotations.
 From TD Require Import Model.C06_Cache Proofs.C06_KeyP Proofs.C06_CacheP Proofs.C06_ReadP Proofs.C06_StepP Proofs.C06_WitnessP Proofs.C06_FixedP.
@@ -8,8 +9,9 @@ From TD Require Gen.C06_Sites.
 Open Scope string_scope.
 Open Scope list_scope.
 
-(* -------- the full statement, kept visible: still FALSE of the faithful model because of D62 (memmap_ builds no lock graph:
-   a nested node unlocks alone — the lock graph's defect D7) and D65 (lazy stacks memoise stacked copies); see the refutations *)
+(* -------- the full statement, kept visible: still FALSE of the faithful model because of D65 (lazy stacks memoise stacked
+   copies); see the refutation.  D62 (memmap_ built no lock graph: a nested node unlocked alone — the lock graph's defect D7) is
+   repaired: memmap_() is one of the permitted operations of C06_cache_sound below *)
 Definition permitted (s : state) (o : op) : Prop := exists hk, snd (step repo hk s o) = Done.
 Definition C06_cache_sound_full_statement : Prop :=
   forall U hk s ops, objs_consistent U ->
@@ -18,14 +20,15 @@ Definition C06_cache_sound_full_statement : Prop :=
     forall acc v b, snd (read hk (run repo hk s pre) p m a k) = Some (acc, v, b) ->
     exists n, find_node (run repo hk s pre) p = Some n /\ v = fresh (run repo hk s pre) n m a k.
 
-(* -------- cache_sound ([repo] = /repo with the fix: commits of D19/D60, D61, D63, S11, D64, D66, D67).
+(* -------- cache_sound ([repo] = /repo with the fix: commits of D19/D60, D61, D63, S11, D64, D66, D67 and of the lock graph: D7, D55).
    Any tree of TensorDicts (any depth, any locked sub-forest with its lock graph), any interleaving of memoised reads (hit, miss,
    not locked; verification hook on or off), in-place writes, lock_/unlock_ at any node (accepted or refused), structural writes
    (accepted where the owner is unlocked, refused under lock) AND the writes that are accepted under lock — non-tensor promotion,
-   make_memmap / _from_tensor / _from_storage, names and batch_size assignment at any node: every read returns exactly what a
-   fresh computation returns.  Hypotheses: objects occurring in the calls are determined by their address (guaranteed by CPython
-   now that every entry keeps its arguments alive, D67), keyword arguments listed in sorted order.
-   Outside: memmap_() of a tree (D7/D62), lazy stacks (D65). *)
+   make_memmap / _from_tensor / _from_storage, names and batch_size assignment at any node, memmap_() of any node (locked or not,
+   with locked or unlocked nodes below it): every read returns exactly what a fresh computation returns.  Hypotheses: objects
+   occurring in the calls are determined by their address (guaranteed by CPython now that every entry keeps its arguments alive,
+   D67), keyword arguments listed in sorted order.
+   Outside: lazy stacks (D65). *)
 Theorem C06_cache_sound : forall U hk s ops,
   objs_consistent U -> Good U s -> Forall (permitted_op U) ops ->
   forall pre p m a k post, ops = pre ++ ORead p m a k :: post ->
@@ -93,13 +96,39 @@ Theorem C06_tensor_never_stored : forall s p m a k, fst (decorate s p m a k VTen
 Proof. exact tensor_never_stored. Qed.
 Print Assumptions C06_tensor_never_stored.
 
-(* -------- what remains refuted *)
-(* D62, consequence of D7 (C05): memmap_ flags the nodes without building the lock graph; a nested node unlocks alone *)
-Theorem C06_cache_sound_refuted_memmap_subtree_unlock :
-  outcomes repo false w_mm subtree_unlock_ops = [Done; Done; Done; Done] /\ stale_hit (run repo false w_mm subtree_unlock_ops) [] MFlattenKeys [] [].
-Proof. exact refuted_memmap_subtree_unlock. Qed.
-Print Assumptions C06_cache_sound_refuted_memmap_subtree_unlock.
+(* -------- D62 (consequence of D7, C05) repaired: memmap_() locks through the lock graph *)
+(* in any state that satisfies the invariant — whatever was locked before — after memmap_() of node p the unlock_() of any node
+   strictly below p is refused *)
+Theorem C06_memmap_nested_unlock_refused : forall U hk s p base q,
+  Good U s -> is_node_path s p = true -> is_node_path s q = true -> proper_prefix p q = true ->
+  snd (step repo hk (fst (step repo hk s (OMemmap p base))) (OUnlock q)) = RaisedLock.
+Proof. exact memmap_nested_unlock_refused. Qed.
+Print Assumptions C06_memmap_nested_unlock_refused.
 
+(* the history that D62 recorded (memmap_(); read; n.unlock_(); n.set(new); n.lock_(); read), from an unlocked tree: memmap_()
+   flags every node and registers the nested node under the root; the nested unlock is refused and leaves flags and parents as
+   they were; the structural write is refused; the root's memoised flatten_keys is a sound hit *)
+Theorem C06_memmap_subtree_unlock_refused :
+  let s1 := fst (step repo false w_plain (OMemmap [] 100)) in
+  lock_graph s1 = [([], Some true, [], true); (["n"], Some true, [[]], true)]
+  /\ snd (step repo false s1 (OUnlock ["n"])) = RaisedLock
+  /\ lock_graph (fst (step repo false s1 (OUnlock ["n"]))) = [([], Some true, [], true); (["n"], Some true, [[]], false)]
+  /\ outcomes repo false w_plain memmap_then_subtree_unlock = [Done; Done; RaisedLock; RaisedLock; Done]
+  /\ exists v n, snd (read false (run repo false w_plain memmap_then_subtree_unlock) [] MFlattenKeys [] []) = Some (Hit, v, None)
+                 /\ find_node (run repo false w_plain memmap_then_subtree_unlock) [] = Some n
+                 /\ v = fresh (run repo false w_plain memmap_then_subtree_unlock) n MFlattenKeys [] [].
+Proof. exact memmap_subtree_unlock_refused. Qed.
+Print Assumptions C06_memmap_subtree_unlock_refused.
+
+(* ... and what the library did before the repair ([unrepaired]): nothing registered, every call accepted, a stale hit *)
+Theorem C06_unrepaired_refuted_memmap_subtree_unlock :
+  lock_graph (fst (step unrepaired false w_plain (OMemmap [] 100))) = [([], Some true, [], true); (["n"], Some true, [], true)]
+  /\ outcomes unrepaired false w_plain memmap_then_subtree_unlock = [Done; Done; Done; Done; Done]
+  /\ stale_hit (run unrepaired false w_plain memmap_then_subtree_unlock) [] MFlattenKeys [] [].
+Proof. exact unrepaired_memmap_subtree_unlock. Qed.
+Print Assumptions C06_unrepaired_refuted_memmap_subtree_unlock.
+
+(* -------- what remains refuted *)
 (* D65: in-place writes alone suffice when a lazy stack is involved: its memoised flatten_keys holds stacked copies *)
 Theorem C06_cache_sound_refuted_lazy_materialised :
   outcomes repo false w_lazy [ORead [] MFlattenKeys [] []; OInplace ["#0"; "x"] 9%Z] = [Done; Done]
@@ -149,9 +178,16 @@ Example C06_ex_derived_lock_not_memoised :
             /\ nodes (fst (read false w_lazy_members [] MKeyList [] [])) = nodes w_lazy_members.
 Proof. exact derived_lock_not_memoised. Qed.
 Example C06_ex_permitted_history : Forall (permitted_op [none_obj; nontensor_fn])
-  [ORead [] MFlattenKeys [] []; OPromote ["nt"] (lfNS 20 20); OSetNames [] (Some ["u"]); OSetBatchSize ["n"] []; OInplace ["a"] 7%Z; OUnlock []; OLock []].
+  [ORead [] MFlattenKeys [] []; OPromote ["nt"] (lfNS 20 20); OSetNames [] (Some ["u"]); OSetBatchSize ["n"] []; OInplace ["a"] 7%Z; OUnlock []; OLock [];
+   OMemmap [] 100; OMemmap ["n"] 300].
 Proof.
   apply Forall_cons; [split; [split; [intros o []|reflexivity]|intros o []]|]. repeat (apply Forall_cons; [exact I|]). constructor.
 Qed.
+Example C06_ex_good_unlocked_state : forall U, Good U w_plain.
+Proof. exact w_plain_good. Qed.
+Example C06_ex_memmap_nested_unlock_hypotheses :
+  is_node_path w_plain [] = true /\ is_node_path w_plain ["n"] = true /\ proper_prefix [] ["n"] = true
+  /\ is_node_path w0 [] = true /\ is_node_path w0 ["n"] = true.
+Proof. repeat split. Qed.
 Example C06_ex_pins : fresh w0 (mknode [] 1 NTD (Some true) [] false) MNestedKeys [] [("is_leaf", AObj f_tensors)] = VView false false 1 false [f_tensors].
 Proof. reflexivity. Qed.
